@@ -3,6 +3,7 @@ package main
 import (
 	"bufio"
 	"bytes"
+	"crypto/sha1"
 	"encoding/json"
 	"errors"
 	"fmt"
@@ -32,6 +33,10 @@ type Run struct {
 	Writer string `json:"writer"`
 	// per-run context (overrides the case's)
 	Ctx json.RawMessage `json:"ctx"`
+	// Repeat > 1: render that many times (fresh engine each) and require identical results
+	Repeat int `json:"repeat"`
+	// Rev: build context maps inserting the keys in reverse order
+	Rev bool `json:"rev"`
 }
 
 type Expect struct {
@@ -44,6 +49,8 @@ type Expect struct {
 	// Always: spy counts that must hold whatever the outcome (e.g. a forbidden
 	// callback was never invoked although the render failed)
 	Always json.RawMessage `json:"always"`
+	// AnyOutcome: success or failure are both fine (the case checks a relation between runs only)
+	AnyOutcome bool `json:"anyoutcome"`
 	// Absent: text that must not occur in the output (context data in a verbatim body)
 	Absent []int `json:"absent"`
 }
@@ -138,6 +145,8 @@ type Result struct {
 	Runs  int      `json:"runs"`
 	Fails []Fail   `json:"fails,omitempty"`
 	Src   string   `json:"src,omitempty"` // first run's entry source, for humans
+	// Digest of every run's outcome, for comparison of the same case across processes
+	Digest string `json:"digest,omitempty"`
 }
 
 var errSentinel = errors.New("verif: injected fault")
@@ -409,6 +418,8 @@ func checkCase(c *Case, limit time.Duration) (res Result, hung bool) {
 		return
 	}
 	baseCalls := countsOf(c.Expect.Calls)
+	digest := sha1.New()
+	defer func() { res.Digest = fmt.Sprintf("%x", digest.Sum(nil)) }()
 	var first *obs
 	var firstLabel string
 	for i := range c.Runs {
@@ -422,13 +433,34 @@ func checkCase(c *Case, limit time.Duration) (res Result, hung bool) {
 			res.Src = short(src)
 		}
 		rctx := ctx
+		rawCtx := c.Ctx
 		if len(r.Ctx) > 0 {
+			rawCtx = r.Ctx
 			if rc, err := scopeOf(r.Ctx); err == nil {
 				rctx = rc
 			}
 		}
+		if r.Rev {
+			reverseInsertion = true
+			if rc, err := scopeOf(rawCtx); err == nil {
+				rctx = rc
+			}
+			reverseInsertion = false
+		}
 		o := renderRunTimed(c, r, rctx, limit)
 		recordObs(c, r, &o)
+		digest.Write([]byte(fmt.Sprintf("%s|%v|%s|%s\n", r.Label, o.ok, o.kind, o.out)))
+		for rep := 1; rep < r.Repeat && o.kind != "hang"; rep++ {
+			// a fresh context value and a fresh engine every time
+			rc2, _ := scopeOf(rawCtx)
+			o2 := renderRunTimed(c, r, rc2, limit)
+			if o2.ok != o.ok || o2.out != o.out {
+				res.Pass = false
+				res.Fails = append(res.Fails, Fail{Run: r.Label, Why: "nondeterministic", Got: short(fmt.Sprintf("render %d: ok=%v %s", rep+1, o2.ok, o2.out)),
+					Want: short(fmt.Sprintf("render 1: ok=%v %s", o.ok, o.out)), Src: short(src)})
+				break
+			}
+		}
 		fail := func(why, got, want string) {
 			res.Pass = false
 			all := []string{}
@@ -451,7 +483,9 @@ func checkCase(c *Case, limit time.Duration) (res Result, hung bool) {
 			wantOut = *r.Out
 		}
 		want := textOf(wantOut, r.Pads, false)
-		if c.Expect.Ok {
+		if c.Expect.AnyOutcome {
+			// nothing to compare against: relations between runs are checked below
+		} else if c.Expect.Ok {
 			if !o.ok {
 				fail("unexpected-error", o.kind+": "+o.errMsg, want)
 			} else if !c.Expect.NoOut && o.out != want {
